@@ -31,6 +31,13 @@ def gen_cases(ctx, wmax, hmax, quants):
     return cases
 
 
+def shape_only(toks):
+    """what C13 speaks about: result classes, headers, plane sizes and output lengths - not sample values (content hashes
+    are dropped, so a change of the colour formula, of the filter kernel or of the transform is not this check's business)"""
+    import re
+    return [re.sub(r"\b[0-9a-f]{16}\b", "#", t) for t in (toks or [])]
+
+
 def run(ctx):
     thorough = ctx.tier == "thorough"
     broken = common.proof_step(ctx, THEOREMS, BRIDGES, allowed_axioms=common.REALS_AXIOMS)
@@ -67,7 +74,7 @@ def run(ctx):
                            "spec": "deblocking each plane with the tabulated strength and converting to RGBA completes and yields width x height pixels",
                            "implementation": problem}, "%dx%d q=%d: %s" % (w, h, q, problem))
             found = True
-        elif io.get(idx) != mo.get(idx):
+        elif shape_only(io.get(idx)) != shape_only(mo.get(idx)):
             broken.append("correspondence pipeline: model and implementation differ at %dx%d q=%d" % (w, h, q))
         else:
             nontriv.add((w, h, q))
